@@ -438,6 +438,14 @@ class Interp:
           items = v.ghost.get('items')
           if isinstance(items, SSeq):
             return items.len > 0
+          fn = klass.__dict__.get('__bool__') or klass.__dict__.get('__len__')
+          if isinstance(fn, types.FunctionType) and (
+              func_key(fn) in self.policy.inline or fn.__module__ in self.policy.inline_modules):
+            r = self.call_function(fn, [v])
+            if '__bool__' in klass.__dict__:
+              return self.truth_z(r)
+            zr = self.to_z3(r)
+            return zr != 0 if zr is not None else self.truth_z(r)
           b = v.ghost.get('truth')
           if b is None:
             b = z3.Bool(fresh_name('truth_obj'))
@@ -962,14 +970,20 @@ class Interp:
     Supports the shapes `if c: <exit>`, `if c: ... else: ...`, try/except
     around a contracted call is not supported here."""
     res = z3.BoolVal(True)
-    for st in stmts:
+    for k, st in enumerate(stmts):
       if isinstance(st, ast.If):
         c = self.truth_z(self.eval(st.test, frame))
         if isinstance(c, bool):
           c = z3.BoolVal(c)
-        a = self._completes_expr(st.body, frame)
-        b = self._completes_expr(st.orelse, frame)
-        res = z3.And(res, z3.If(c, a, b))
+        with self.path.scoped(c):
+          a = self._completes_expr(st.body, frame)
+        with self.path.scoped(z3.Not(c)):
+          b = self._completes_expr(st.orelse, frame)
+        here = z3.If(c, a, b)
+        # the remaining statements run only if this one completed
+        with self.path.scoped(here):
+          rest = self._completes_expr(stmts[k + 1:], frame)
+        return z3.And(res, here, rest)
       elif isinstance(st, (ast.Return, ast.Raise, ast.Break)):
         return z3.And(res, z3.BoolVal(False))
       elif isinstance(st, (ast.Pass, ast.Continue)):
@@ -1387,7 +1401,7 @@ class Interp:
       return self.contains(b, a, frame)
     if op is ast.NotIn:
       return self.not_(self.contains(b, a, frame))
-    if is_concrete(a) and is_concrete(b):
+    if is_concrete(a) and is_concrete(b) and _deep_concrete(a) and _deep_concrete(b):
       try:
         return _CMP[op](a, b)
       except Exception as ex:  # pylint: disable=broad-except
@@ -1545,7 +1559,7 @@ class Interp:
   def contains(self, container, item, frame):
     container = self.resolve(container)
     item = self.resolve(item)
-    if is_concrete(container) and is_concrete(item):
+    if is_concrete(container) and is_concrete(item) and _deep_concrete(container):
       try:
         return item in container
       except Exception as ex:  # pylint: disable=broad-except
